@@ -7,7 +7,7 @@ A shape travels as its name  "k|f|c|w|d|o"  (StmtShapes!Name):
   c  none | eq | in | eqand | orin              criteria (lam: lscalar | llist | lcol | ltab | lmulti | lwhere | lcrit | lexpr)
   w  none | subq | cte | union | exists         wrapping
   d  none | limit | label | distinct            decoration
-  o  none | selectin | joined | defer           ORM loader option   (DML: none | ret  = RETURNING id)
+  o  none | selectin | joined | defer | undefer ORM loader option   (DML: none | ret  = RETURNING id)
 A valuation is the dict printed by the spec: a, b (0 = None), l (list), n (limit), col, tab.
 
 Nothing here decides a property: expected values always come from the TLC output; this module only constructs and observes.
@@ -18,7 +18,7 @@ import warnings
 
 import sqlalchemy as sa
 from sqlalchemy import event
-from sqlalchemy.orm import Session, defer, joinedload, registry, relationship, selectinload, with_loader_criteria
+from sqlalchemy.orm import Session, defer, joinedload, registry, relationship, selectinload, undefer, with_loader_criteria
 
 NROWS = 5
 X = [1, 2, 1, 3, None]
@@ -201,6 +201,8 @@ def build(sh, val, T=None):
             st = st.options(joinedload(A.bs))
         elif o == "defer":
             st = st.options(defer(A.y))
+        elif o == "undefer":
+            st = st.options(undefer(A.y))
         return st
     # Core select
     a1 = T("s1")
